@@ -21,6 +21,10 @@ CLAIMED = {
    text="Machine-checked proof (Lean 4, PARTIAL): the full statement C01_full (a verified-compiler theorem for parser + inference + emitter) is stated, NOT proved. Proved, for all inputs: the mechanisms named by the property's anchors — operator grouping (C08 climb_eq_group), thunked if/else branches and pipe = application (C14 ifElse_*, ifOnly_false, pipe_spec), match dispatch to the constructing case (C09 dispatch_total), literals and interpolation (C11_*) — and the partial-application lowering: papp_agrees_when_pure (trace and values preserved for effect-free given arguments, any body, any later calls) with the witness papp_effects_late for known finding D9. The reference semantics is executable Lean (strict, left-to-right, lexically scoped big-step evaluator with an output trace) and is compared on every run with the stdout of the real pipeline's output, compiled and run, on type-directed random programs over the documented subset + a boundary corpus. Known findings D9, D12, D17.",
    design="§5 C01", technique="Lean 4 theorems on the lowering mechanisms + Lean reference evaluator vs compiled output of the real pipeline on generated programs (translation validation as the tie/search; no end-to-end compiler proof)",
    note="Trusted: Lean kernel; the reference evaluator as the meaning of abstract programs; the generator's renderer; the Go toolchain. Not proved: text->IR correctness, inference, emission as a whole."),
+ "C03": dict(
+   text="Machine-checked proof (Lean 4, full for the emitters as structural models): record_shape (struct with the same field names and mapped types in order), union_interface / union_case_struct (interface U, struct U_C whose payload is field Value iff there is a payload), ctor_is_func / ctor_is_var (New_U_C is a function iff the case has a payload or U is generic), ctor_ref_matches_decl (what a constructor reference resolves to agrees with what is declared), qualified_name, call_full / call_partial / call_partial_arity / call_too_many (direct call with arguments in source order; otherwise a closure whose parameters are exactly the missing parameter types named _r0…, result = declared result, no return when unit), root_func_shape, unit_result_is_no_result — for ALL names, type parameters, types and arities. End to end it is tied by compiling the real pipeline's output together with generated hand-style Go that uses the documented names and implements the package_info functions, and by reading union declarations back with go/parser against the model.",
+   design="§5 C03", technique="Lean 4 theorems on structural models of the emitters + compiled Go clients against the real pipeline's output",
+   note="Trusted: Lean kernel; structural (not textual) emitter models; C15 model for the types; the Go toolchain."),
  "C05": dict(
    text="Machine-checked proof (Lean 4) of every enumeration consumer + regenerated inventory: eqsUnion_order_indep, rsRegisterNewEI_order_indep, piRegAll_order_indep, lookupRecFac_order_indep (after fix 5aa1ab1; witness lookup_unfixed_order_dependent for the old code), exhaustive_decision_order_indep prove for ALL pairs of enumeration orders that what the rest of the compiler observes (dictionary as a finite map, accept/reject decision, chosen record) is the same; fact_enumSites proves by decide that the REGENERATED list of dict.Keys/Values/KVs calls, map range loops, goroutines, time/rand/environment/%p uses in fc, pkg and cmd is exactly these consumers. The composition into byte-identical output is argued (DESIGN.md) and tied by running fc built against an adversarial permuting dict package (overlay) under several seeds and the stock binary repeatedly on a corpus incl. the 12 compiler sources.",
    design="§5 C05", technique="Lean 4 order-independence theorems per consumer + decide over a regenerated site inventory + permuted-dictionary metamorphic runs",
